@@ -82,7 +82,15 @@ def handle_rejections(ctx, f, rejs, stats, mode, tag):
 
 
 def conformance(ctx, f, mode, n, seed, name):
-    out, st = run_harness(ctx, f['driver'], name, mode=mode, profile=f['profile'], seed=seed, n=n)
+    try:
+        out, st = run_harness(ctx, f['driver'], name, mode=mode, profile=f['profile'], seed=seed, n=n)
+    except Crash as c:
+        first = str(c).splitlines()[0][:300]
+        report(ctx, f'crash:{"modeC" if mode == "c" else "modeF"}:{first[:80]}',
+               f'the process running the real code was killed by a panic raised in a goroutine of the library (driver {f["driver"]}, profile {f["profile"]}, mode {mode}, seed {seed}): {first}',
+               {'panic.txt': str(c), 'exec.json': dict(driver=f['driver'], profile=f['profile'], mode=mode, seed=seed, n=n, crash=True)})
+        ctx.evaluations += 1
+        return
     rej, nexec = validate(ctx, f['tv'], f'{out}/trace.ndjson', st, f['prop'], 'tv_' + name, parallel=8 if ctx.quick else 16)
     ctx.conf.append(dict(mode='controlled' if mode == 'c' else 'free', executions=st['executions'], steps=st.get('steps'),
                          distinct=st['distinct_schedules'], nontrivial=st['nontrivial'], stuck_terminals=st.get('stuck_terminals'),
@@ -128,6 +136,10 @@ def replay(ctx, path):
     build_harness(ctx)
     ei = json.load(open(f'{path}/exec.json'))
     mode = ei.get('mode', 'c')
+    if ei.get('crash'):
+        # a crash is replayed by re-running the same seeded batch
+        f2 = dict(f, driver=ei['driver'], profile=ei['profile'])
+        return conformance(ctx, f2, mode, ei['n'], ei['seed'], 'replay')
     for leg in f.get('legs', []):
         if leg.get('driver') == ei.get('driver'):
             f = dict(f, **leg)
